@@ -22,3 +22,30 @@ func VerifWriterPool(w Writer) VerifMIDPool {
 	}
 	return nil
 }
+
+// VerifPoolOutstanding lists the identifiers of the writer's pool that are currently handed out.
+func VerifPoolOutstanding(w Writer) []int32 {
+	ww, ok := w.(*writer)
+	if !ok {
+		return nil
+	}
+	p, ok := ww.midPool.(*simpleMidPool)
+	if !ok {
+		return nil
+	}
+	p.mtx.Lock()
+	defer p.mtx.Unlock()
+	free := make(map[int32]bool)
+	for _, iv := range p.intervals {
+		for i := iv.from + 1; i <= iv.to; i++ {
+			free[i] = true
+		}
+	}
+	out := []int32{}
+	for i := p.min; i <= p.max; i++ {
+		if !free[i] {
+			out = append(out, i)
+		}
+	}
+	return out
+}
